@@ -328,7 +328,7 @@ func c06Cleanup(p *Program, r *Report) {
 		rec := p.origins(ts.Recipient)
 		n := g.Idx[ts.In]
 		switch {
-		case allContain(rec, "."+"parent<-"):
+		case allContain(rec, lc.pat(lc.ParentF)):
 			parentTell[n] = true
 		case anyContains(rec, "next<-") || anyContains(rec, "range<-"):
 			watcherTell[n] = true
@@ -344,7 +344,7 @@ func c06Cleanup(p *Program, r *Report) {
 	}
 	parentNil := map[edge]bool{}
 	for _, ef := range p.edgeFacts(g) {
-		if ef.Field.Name() == "parent" && ef.Fact.IsNil && ef.Fact.Op == token.EQL {
+		if ef.Field == lc.ParentF && ef.Fact.IsNil && ef.Fact.Op == token.EQL {
 			parentNil[ef.E] = true
 		}
 	}
@@ -410,7 +410,7 @@ func c06Cleanup(p *Program, r *Report) {
 				if a, ok := in.(*ssa.Alloc); ok && typeIs(a.Type().(*types.Pointer).Elem(), modPath, "OnKilled") {
 					if v, set := storedField(a, "Ref"); set {
 						o := p.origins(v)
-						good = allContain(o, "Context.ref<-") && !anyContains(o, "parent")
+						good = allContain(o, lc.pat(lc.RefF)) && !anyContains(o, lc.pat(lc.ParentF))
 					}
 				}
 			}
